@@ -14,7 +14,7 @@ use std::pin::Pin;
 use std::sync::{Arc, Mutex};
 use std::task::{Context, Poll, Waker};
 use tokio::io::{AsyncRead, AsyncWrite, ReadBuf};
-use zvt::feig::packets as fp;
+
 use zvt::packets as p;
 use zvt::packets::tlv as t;
 use zvt::ZvtSerializer;
@@ -215,12 +215,14 @@ fn script_for(term: &mut Term, frame: &[u8], plan: &Value) -> (Vec<Vec<u8>>, Str
             } else {
                 let serial = plan.get("serial").and_then(|s| s.as_str()).unwrap_or(&term.serial).to_string();
                 let tid = plan.get("terminal_id").and_then(|s| s.as_str()).unwrap_or(&term.terminal_id).to_string();
-                frames.push(fp::CVendFunctionsEnhancedSystemInformationCompletion {
-                    device_id: format!("{:<8}", serial).chars().take(8).collect(),
-                    sw_version: "GER-APP-v2.0.9   ".into(),
-                    terminal_id: format!("{:<8}", tid).chars().take(8).collect(),
-                    temperature: "24.4".into(),
-                }.zvt_serialize());
+                // 06 0F 25: device id (8), software version (17), terminal id (8), temperature (4) - byte by byte, like the other frames
+                let fit = |x: &str, n: usize| -> Vec<u8> { format!("{:<w$}", x, w = n).bytes().take(n).collect() };
+                let mut f = vec![0x06u8, 0x0f, 37];
+                f.extend(fit(&serial, 8));
+                f.extend(fit("GER-APP-v2.0.9", 17));
+                f.extend(fit(&tid, 8));
+                f.extend(b"24.4");
+                frames.push(f);
             }
         }
         (0x06, 0x22) => {
@@ -359,6 +361,7 @@ fn script_for(term: &mut Term, frame: &[u8], plan: &Value) -> (Vec<Vec<u8>>, Str
                             a.iter().map(|s| t::Subs {
                                 application_id: s.get("aid").filter(|v| !v.is_null()).map(hexs),
                                 card_type: s.get("card_type").filter(|v| !v.is_null()).map(hexs),
+                                ..t::Subs::default()
                             }).collect()
                         }).unwrap_or_default();
                         Some(t::StatusInformation {
